@@ -8,6 +8,8 @@ import (
 	"fmt"
 	"go/token"
 	"go/types"
+	"sort"
+	"strconv"
 	"strings"
 
 	"golang.org/x/tools/go/ssa"
@@ -128,7 +130,7 @@ func ruleTEXTCONV(c *Ctx, r *Report) {
 						key := fmt.Sprintf("%s|widen|%s", fnName(fn), c.key(x.X, nil))
 						if ok, at := c.onlyCompared(x, map[ssa.Value]bool{}); ok {
 							r.ok(rule, key, c.instrPos(in), "the widened byte is only compared")
-						} else if asciiBound(c.atomsAt(in), c.key(x.X, nil)) {
+						} else if asciiBound(c.atomsAt(in), c.key(x.X, nil)) || c.ssaBoundBelow(in, x.X, 128) {
 							r.ok(rule, key, c.instrPos(in), "the byte is below utf8.RuneSelf here")
 						} else if !c.flowsToText(x, map[ssa.Value]bool{}) {
 							r.ok(rule, key, c.instrPos(in), "the widened byte is used as a number, not as text")
@@ -519,6 +521,266 @@ func (c *Ctx) decides(root, fn *ssa.Function) bool {
 				}
 				work = append(work, g)
 			}
+		}
+	}
+	return false
+}
+
+// ---------------------------------------------------------------------------------------------
+// "x contains one of the characters S" — one meaning, many spellings. The sibling rules compare the
+// wildcard tests of the parser and the decoder; they are compared by this meaning, not by their text.
+
+func runeSetOfKeyString(k string) (string, bool) {
+	// a Go-quoted string constant key such as "\"*?\""
+	if len(k) < 2 || k[0] != '"' {
+		return "", false
+	}
+	s, err := strconv.Unquote(k)
+	if err != nil {
+		return "", false
+	}
+	return s, true
+}
+
+func sortedRunes(s string) string {
+	rs := []rune(s)
+	sort.Slice(rs, func(i, j int) bool { return rs[i] < rs[j] })
+	var out []rune
+	for i, r := range rs {
+		if i == 0 || r != rs[i-1] {
+			out = append(out, r)
+		}
+	}
+	return string(out)
+}
+
+func splitTopArgs(s string) []string {
+	var out []string
+	depth, start, inStr := 0, 0, false
+	for i := 0; i < len(s); i++ {
+		ch := s[i]
+		switch {
+		case inStr:
+			if ch == '\\' {
+				i++
+			} else if ch == '"' {
+				inStr = false
+			}
+		case ch == '"':
+			inStr = true
+		case ch == '(' || ch == '[' || ch == '{':
+			depth++
+		case ch == ')' || ch == ']' || ch == '}':
+			depth--
+		case ch == ',' && depth == 0:
+			out = append(out, s[start:i])
+			start = i + 1
+		}
+	}
+	return append(out, s[start:])
+}
+
+// charsetCall: a call key/args of a strings function that asks for the characters; returns subject and set.
+func charsetCall(name string, args []string) (subj, set string, ok bool) {
+	if len(args) != 2 {
+		return
+	}
+	switch name {
+	case "strings.ContainsAny", "strings.IndexAny":
+		if s, isStr := runeSetOfKeyString(args[1]); isStr && s != "" {
+			return args[0], sortedRunes(s), true
+		}
+	case "strings.Contains", "strings.Index":
+		if s, isStr := runeSetOfKeyString(args[1]); isStr && len([]rune(s)) == 1 {
+			return args[0], s, true
+		}
+	case "strings.ContainsRune", "strings.IndexRune", "strings.IndexByte":
+		var n int64
+		if _, err := fmt.Sscan(args[1], &n); err == nil && fmt.Sprint(n) == args[1] && n > 0 {
+			return args[0], string(rune(n)), true
+		}
+	}
+	return
+}
+
+// charsetAtom: atom a says "subj contains (pos) / does not contain (!pos) one of the characters of set".
+func (c *Ctx) charsetAtom(a Atom) (subj, set string, pos, ok bool) {
+	switch a.Kind {
+	case "call":
+		if strings.HasPrefix(a.Subj, "strings.Contains") {
+			if s, st, ok := charsetCall(a.Subj, splitTopArgs(a.Val)); ok {
+				return s, st, a.Pos, true
+			}
+		}
+		if a.Fn != nil && inModule(a.Fn) && len(a.Fn.Params) == 1 && isStringType(a.Fn.Params[0].Type()) {
+			if st, ok := c.charsetPredicate(a.Fn); ok {
+				return a.Val, st, a.Pos, true
+			}
+		}
+	case "cmp":
+		// strings.IndexByte(x, c) >= 0 and friends
+		i := strings.Index(a.Subj, "(")
+		if i < 0 || !strings.HasPrefix(a.Subj, "strings.Index") || !strings.HasSuffix(a.Subj, ")") {
+			return
+		}
+		s, st, isSet := charsetCall(a.Subj[:i], splitTopArgs(a.Subj[i+1:len(a.Subj)-1]))
+		if !isSet {
+			return
+		}
+		switch a.Op + a.Val {
+		case ">=0", "!=-1", ">-1":
+			return s, st, true, true
+		case "<0", "==-1", "<=-1":
+			return s, st, false, true
+		}
+	}
+	return
+}
+
+// charsetPredicate: fn(s string) bool is "s contains one of the characters of set", written with the
+// strings functions or as a loop over every byte / rune of s that returns true on an equality with a constant.
+func (c *Ctx) charsetPredicate(fn *ssa.Function) (string, bool) {
+	memo := "charsetPred"
+	m, _ := c.roles[memo].(map[*ssa.Function]string)
+	if m == nil {
+		m = map[*ssa.Function]string{}
+		c.roles[memo] = m
+	}
+	if v, ok := m[fn]; ok {
+		return v, v != ""
+	}
+	m[fn] = ""
+	if fn.Signature.Results().Len() != 1 || !isBool(fn.Signature.Results().At(0).Type()) || len(fn.Blocks) == 0 {
+		return "", false
+	}
+	// loops: exactly the full-coverage forms
+	for _, b := range fn.Blocks {
+		for _, s := range b.Succs {
+			if s == b || s.Dominates(b) {
+				if !(c.isRangeHeader(s) || c.fullCountingLoop(s, fn.Params[0])) {
+					return "", false
+				}
+			}
+		}
+	}
+	paths, complete := c.enumPathsOpt(fn, 2000, &InlineOpts{None: true, Havoc: true})
+	if !complete {
+		return "", false
+	}
+	set := ""
+	type pathInfo struct {
+		res      bool
+		pos, neg string
+	}
+	var infos []pathInfo
+	for _, p := range paths {
+		if p.Ret == nil {
+			continue // a cut path (loop iteration that goes round again)
+		}
+		res, isC := constBoolVal(c.resolve(p.Ret.Results[0], p.Env))
+		if !isC {
+			return "", false
+		}
+		pi := pathInfo{res: res}
+		for _, a := range p.Atoms {
+			if _, st, pos, ok := c.charsetAtom(a); ok {
+				if pos {
+					pi.pos += st
+				} else {
+					pi.neg += st
+				}
+				continue
+			}
+			// element tests inside a loop over the text
+			if a.Kind == "cmp" && (strings.HasPrefix(a.Subj, "$0[") || strings.HasPrefix(a.Subj, "next:")) {
+				var n int64
+				if _, err := fmt.Sscan(a.Val, &n); err == nil && n > 0 && n < 128 {
+					switch a.Op {
+					case "==":
+						pi.pos += string(rune(n))
+						continue
+					case "!=":
+						pi.neg += string(rune(n))
+						continue
+					}
+				}
+			}
+			// loop control: the counter against the length, the range iterator
+			if a.Kind == "cmp" && strings.Contains(a.Val, "len($0)") || a.Kind == "bool" && strings.HasPrefix(a.Subj, "next:") || a.Kind == "len" && a.Subj == "$0" {
+				continue
+			}
+			return "", false
+		}
+		infos = append(infos, pi)
+		if res {
+			set += pi.pos
+		}
+	}
+	set = sortedRunes(set)
+	if set == "" {
+		return "", false
+	}
+	for _, pi := range infos {
+		if pi.res && pi.pos == "" {
+			return "", false // true without having found a character
+		}
+		if !pi.res && pi.pos != "" {
+			return "", false // found a character and still false
+		}
+	}
+	m[fn] = set
+	return set, true
+}
+
+// fullCountingLoop: h heads `for i := 0; i < len(s); i++` over the given string.
+func (c *Ctx) fullCountingLoop(h *ssa.BasicBlock, s ssa.Value) bool {
+	if !c.isCountingLoop(h) {
+		return false
+	}
+	iff := h.Instrs[len(h.Instrs)-1].(*ssa.If)
+	bo := iff.Cond.(*ssa.BinOp)
+	ph := bo.X.(*ssa.Phi)
+	if bo.Op != token.LSS {
+		return false
+	}
+	call, ok := bo.Y.(*ssa.Call)
+	if !ok || len(call.Call.Args) != 1 || c.key(call.Call.Args[0], nil) != c.key(s, nil) {
+		return false
+	}
+	for i, pred := range h.Preds {
+		e := ph.Edges[i]
+		if pred == h || h.Dominates(pred) {
+			add, ok := e.(*ssa.BinOp)
+			if !ok || add.Op != token.ADD || add.X != ssa.Value(ph) {
+				return false
+			}
+			if n, ok := constIntVal(add.Y); !ok || n != 1 {
+				return false
+			}
+		} else if n, ok := constIntVal(e); !ok || n != 0 {
+			return false
+		}
+	}
+	return true
+}
+
+// ssaBoundBelow: a dominating branch tested this very SSA value (not a re-load of the same location)
+// to be below n — stores in between cannot invalidate what is known about a value already loaded.
+func (c *Ctx) ssaBoundBelow(at ssa.Instruction, v ssa.Value, n int64) bool {
+	for _, f := range c.domFacts(at.Block()) {
+		bo, ok := f.Cond.(*ssa.BinOp)
+		if !ok {
+			continue
+		}
+		k, isC := constIntVal(bo.Y)
+		if bo.X != v || !isC {
+			continue
+		}
+		switch {
+		case f.Pol && bo.Op == token.LSS && k <= n, f.Pol && bo.Op == token.LEQ && k < n:
+			return true
+		case !f.Pol && bo.Op == token.GEQ && k <= n, !f.Pol && bo.Op == token.GTR && k < n:
+			return true
 		}
 	}
 	return false
